@@ -179,7 +179,22 @@ class ModelGroup:
                     if name in last_full_ds:
                         previous_data_array = last_full_ds[name]
 
-                        if not np.allclose(data_array, previous_data_array):
+                        # A bucket on other labels (e.g. a multi-wavelength photon put
+                        # on another wavelength grid) has changed, whatever its values
+                        same_labels: bool = (
+                            data_array.dims == previous_data_array.dims
+                            and data_array.shape == previous_data_array.shape
+                            and all(
+                                data_array.indexes[dim].equals(
+                                    previous_data_array.indexes[dim]
+                                )
+                                for dim in data_array.indexes
+                            )
+                        )
+
+                        if not same_labels or not np.allclose(
+                            data_array, previous_data_array
+                        ):
                             detector.intermediate[
                                 f"{pipeline_key}/{model_group_key}/{model_key}/{name}"
                             ] = data_array
